@@ -2,8 +2,8 @@ SPECIFICATION Spec
 CONSTANTS
   Helper = "MC"
   Mode = "with"
-  Prims <- McTimed
-  MaxLen = 3
+  Prims <- McQuick
+  MaxLen = 1
   DH = 300
   DV = 500
   DL = 0
@@ -11,9 +11,9 @@ CONSTANTS
   X0 = 0
   Y0 = 0
   Z0 = 0
-  Lats = {}
-  MaxLat = 0
-  Bug = "none"
+  Lats <- Lat1
+  MaxLat = 1
+  Bug = "negtimeout"
 INVARIANT NoViolation
 INVARIANT Ended
 INVARIANT PosTracks
